@@ -737,6 +737,13 @@ pub fn worker_c19(tier: &str) {
     // scale: one size parameter at a time (depth, number of arguments / elements / goals / clauses' variables)
     let (mut terms, mut goals, mut rules) = (terms, goals, rules);
     let (st, sg, sr) = scale_syntax(lv >= 2);
+    // a complex term (or built-in goal) whose text is longer than 1000 characters is rejected by
+    // design ("String is too long", s_complex.rs): such items are outside the documented syntax
+    let before = st.len() + sg.len() + sr.len();
+    let st: Vec<T> = st.into_iter().filter(|t| !term_too_long(t)).collect();
+    let sg: Vec<G> = sg.into_iter().filter(|g| !goal_too_long(g)).collect();
+    let sr: Vec<Clause> = sr.into_iter().filter(|c| !term_too_long(&c.head) && !c.body.as_ref().map_or(false, goal_too_long)).collect();
+    let beyond_limit = before - (st.len() + sg.len() + sr.len());
     terms.extend(st);
     goals.extend(sg);
     rules.extend(sr);
@@ -744,6 +751,9 @@ pub fn worker_c19(tier: &str) {
     let describe = w.describe;
     let mut e = Emit { w: &mut w, emitted: HashMap::new() };
     let mut n_s = 0;
+    if e.w.shard == 0 && describe.is_none() {
+        e.w.count("c19.scale_items_beyond_the_documented_1000_character_limit_left_out", beyond_limit as u64);
+    }
     for t in &terms {
         let my = idx;
         idx += 1;
@@ -826,11 +836,32 @@ pub fn worker_c19(tier: &str) {
     w.done();
 }
 
+/// Does the term contain a complex term or function whose canonical text exceeds the parser's
+/// documented limit of 1000 characters?
+fn term_too_long(t: &T) -> bool {
+    match t {
+        T::Cplx(_, args) | T::Func(_, args) => t.text().chars().count() > 1000 || args.iter().any(term_too_long),
+        T::List(es, tail) => es.iter().any(term_too_long) || tail.as_ref().map_or(false, |x| term_too_long(x)),
+        _ => false,
+    }
+}
+
+fn goal_too_long(g: &G) -> bool {
+    match g {
+        G::Call(t) => term_too_long(t),
+        G::Unify(a, b) | G::Cmp(_, a, b) => term_too_long(a) || term_too_long(b),
+        G::And(gs) | G::Or(gs) => gs.iter().any(goal_too_long),
+        G::Not(x) | G::Time(x) => goal_too_long(x),
+        G::Print(a) | G::PrintList(a) | G::Bip(_, a) => g.text().chars().count() > 1000 || a.iter().any(term_too_long),
+        _ => false,
+    }
+}
+
 /// Scale inputs for C19: (terms, goals, rules), each parametric in one size.
 fn scale_syntax(thorough: bool) -> (Vec<T>, Vec<G>, Vec<Clause>) {
-    let mut sizes: Vec<usize> = vec![3, 4, 5, 7, 8, 9, 15, 16, 17, 20, 21, 31, 32, 33, 40, 41, 63, 64, 65];
+    let mut sizes: Vec<usize> = vec![3, 4, 5, 7, 8, 9, 15, 16, 17, 20, 21, 31, 32, 33, 40, 41, 63, 64, 65, 100, 128, 129, 160];
     if thorough {
-        sizes.extend([100, 101, 127, 128, 129, 255, 256, 257]);
+        sizes.extend([101, 127, 255, 256, 257]);
     }
     let (mut ts, mut gs, mut rs) = (vec![], vec![], vec![]);
     for &n in &sizes {
@@ -842,6 +873,14 @@ fn scale_syntax(thorough: bool) -> (Vec<T>, Vec<G>, Vec<Clause>) {
         let ints: Vec<T> = (1..=n as i64).map(T::Int).collect();
         let vars: Vec<T> = (1..=n).map(|i| v(&format!("$V{}", i))).collect();
         let long_atom = atom("ab ".repeat(n).trim());
+        // non-ASCII atoms: the text is longer in bytes than in characters (6 characters, 8 bytes an item)
+        let wide: Vec<T> = (0..n).map(|i| atom(&format!("\u{e9}\u{fc}{}", 10 + i % 90))).collect();
+        ts.push(cplx("k", wide.clone()));
+        ts.push(list(wide.clone()));
+        gs.push(G::Unify(x(), cplx("k", wide.clone())));
+        gs.push(call("p", wide.clone()));
+        rs.push(Clause { head: cplx("w", wide.clone()), body: None });
+        rs.push(Clause { head: cplx("h", vec![x()]), body: Some(G::And(vec![G::Unify(x(), cplx("k", wide.clone())), call("p", vec![list(wide)])])) });
         ts.extend(vec![deep.clone(), deepv.clone(), deepl.clone(), deepl2.clone(), mixed.clone(), list(ints.clone()), list_t(vars.clone(), v("$T")), cplx("k", ints.clone()), cplx("k", vars.clone()), long_atom.clone(), v(&format!("${}", "X".repeat(n)))]);
         // goals
         for t in [deep.clone(), deepl.clone(), mixed.clone(), cplx("k", vars.clone()), list(ints.clone())] {
